@@ -383,10 +383,18 @@ func (w *world) execOp(op OpSpec, tk *task, fresh bool) (out *Outcome) {
 		// read loop, a SQL driver's row buffer): the Path must not keep
 		// looking at it.
 		buf := []byte(w.sc.Paths[op.Path2])
+		// A copy of the Path value taken before the destination is scanned
+		// into again (rows.Scan(&dest); paths = append(paths, dest) in a
+		// loop) must keep meaning what it meant.
+		kept := *p
+		keptBefore := kept.String()
 		if op.Kind == "scan" {
 			err = p.Scan(buf)
 		} else {
 			err = p.UnmarshalText(buf)
+		}
+		if keptAfter := kept.String(); keptAfter != keptBefore {
+			out.Identity = "a copy of the Path value changed when its original was scanned into again: before " + keptBefore + ", after " + keptAfter
 		}
 		before := p.String()
 		for i := range buf {
@@ -394,10 +402,18 @@ func (w *world) execOp(op OpSpec, tk *task, fresh bool) (out *Outcome) {
 		}
 		out.Raw = "scanned:" + p.String()
 		out.Ranked = out.Raw
-		if before != p.String() {
+		if before != p.String() && out.Identity == "" {
 			out.Identity = "the decoded Path changed when the caller reused the byte buffer it was decoded from: before " + before + ", after " + p.String()
 		}
 		out.setErr(err)
+		return out
+	case "churn":
+		// Self-checking; run in the simulated phase only (reference passes
+		// would just repeat it twice more).
+		out.Raw, out.Ranked = "churn", "churn"
+		if tk != nil {
+			_, out.Identity = churn(op.Path)
+		}
 		return out
 	case "string":
 		out.Raw = "string:" + w.pickPath(op, fresh).String()
@@ -1035,34 +1051,80 @@ func addrDependent(pathText string) bool {
 // nativeVars rewrites the top-level values of a decoded variables map into
 // the Go types a caller building the map by hand would use.
 func nativeVars(m map[string]any) {
-	for k, v := range m {
-		switch v := v.(type) {
+	n := 0
+	for _, k := range sortedKeys(m) {
+		n++
+		switch v := m[k].(type) {
 		case float64:
 			if v == float64(int(v)) {
-				m[k] = int(v)
+				if n%2 == 0 {
+					m[k] = int(v)
+				} else {
+					m[k] = int32(v)
+				}
+			} else {
+				m[k] = float32(v)
+			}
+		case map[string]any:
+			strs := map[string]string{}
+			for kk, e := range v {
+				if s, ok := e.(string); ok {
+					strs[kk] = s
+				}
+			}
+			if len(strs) == len(v) && len(v) > 0 {
+				m[k] = strs
+			} else {
+				m[k] = exec.Vars(v)
 			}
 		case []any:
 			if len(v) == 0 {
 				continue
 			}
-			strs, ints := make([]string, 0, len(v)), make([]int, 0, len(v))
+			var strs []string
+			var ints []int
+			var floats []float64
+			var bools []bool
 			for _, e := range v {
 				switch e := e.(type) {
 				case string:
 					strs = append(strs, e)
+				case bool:
+					bools = append(bools, e)
 				case float64:
+					floats = append(floats, e)
 					if e == float64(int(e)) {
 						ints = append(ints, int(e))
 					}
 				}
 			}
-			if len(strs) == len(v) {
+			switch {
+			case len(strs) == len(v):
 				m[k] = strs
-			} else if len(ints) == len(v) {
+			case len(bools) == len(v):
+				m[k] = bools
+			case len(ints) == len(v) && n%2 == 0:
 				m[k] = ints
+			case len(ints) == len(v):
+				i64 := make([]int64, len(ints))
+				for i, x := range ints {
+					i64[i] = int64(x)
+				}
+				m[k] = i64
+			case len(floats) == len(v):
+				m[k] = floats
 			}
 		}
 	}
+}
+
+func sortedKeys(m map[string]any) []string {
+	keys := make([]string, 0, len(m))
+	for k := range m {
+		keys = append(keys, k)
+	}
+	sort.Strings(keys)
+	return keys
 }
 
 // textualWild reports whether the path text spells a member wildcard.
@@ -1169,4 +1231,83 @@ func rekey(v any) {
 			rekey(e)
 		}
 	}
+}
+
+// churnGroups are sibling path texts that differ only in a literal argument,
+// each with a document on which the siblings give different results.
+var churnGroups = []struct {
+	doc   string
+	texts []string
+}{
+	{`3.14159`, []string{`$.decimal(10,2)`, `$.decimal(10,0)`, `$.decimal(5,1)`, `$.decimal(10,4)`}},
+	{`"12:34:56.789123"`, []string{`$.time(0)`, `$.time(3)`, `$.time(6)`, `$.time(1)`}},
+	{`"2015-08-02T12:34:56.789123+02:00"`, []string{`$.timestamp_tz(0)`, `$.timestamp_tz(2)`, `$.timestamp_tz(5)`}},
+	{`[10,20,30,40]`, []string{`$[0]`, `$[1]`, `$[2]`, `$[1 to 2]`, `$[last]`}},
+	{`"abc"`, []string{`$ like_regex "^a"`, `$ like_regex "^b"`, `$ like_regex "^A" flag "i"`, `$ like_regex "c$"`}},
+	{`{"a":1,"b":2,"c":3}`, []string{`$.a`, `$.b`, `$.c`, `$.a + $.b`}},
+	{`5`, []string{`$ + 1`, `$ + 2`, `$ * 3`, `$ - 1`, `$ == 5`, `$ == 6`}},
+	{`"abc"`, []string{`$ starts with "a"`, `$ starts with "b"`, `$ == "abc"`, `$ == "abd"`}},
+}
+
+// churn is the parse-use-drop loop of a server that parses a path per
+// request: sibling texts are parsed afresh over and over, queried and
+// dropped, with collections in between, so that new AST nodes land on the
+// addresses of dead ones. Every result must be the one its own text gives
+// on a long-lived Path. (A cache keyed by node address, a ring that never
+// unmaps, a finalizer that lags behind the allocator show up here.)
+func churn(seed int) (summary string, mismatch string) {
+	ctx := context.Background()
+	type ref struct {
+		p    *path.Path
+		doc  any
+		want string
+	}
+	var refs [][]ref
+	for _, g := range churnGroups {
+		doc, err := decodeJSON(DocSpec{JSON: g.doc})
+		if err != nil {
+			panic(harnessf("churn doc: %v", err))
+		}
+		var rs []ref
+		for _, txt := range g.texts {
+			p, err := path.Parse(txt)
+			if err != nil {
+				panic(harnessf("churn path %q: %v", txt, err))
+			}
+			items, qerr := p.Query(ctx, doc, exec.WithTZ())
+			rs = append(rs, ref{p, doc, renderItems(items, true) + errSuffix(qerr)})
+		}
+		refs = append(refs, rs)
+	}
+	rounds := 12
+	for r := 0; r < rounds && mismatch == ""; r++ {
+		for gi, g := range churnGroups {
+			for ti := range g.texts {
+				// rotate so that consecutive fresh nodes belong to different texts
+				k := (ti + r + seed) % len(g.texts)
+				p, err := path.Parse(g.texts[k])
+				if err != nil {
+					panic(harnessf("churn path %q: %v", g.texts[k], err))
+				}
+				items, qerr := p.Query(ctx, refs[gi][k].doc, exec.WithTZ())
+				if got := renderItems(items, true) + errSuffix(qerr); got != refs[gi][k].want && mismatch == "" {
+					mismatch = fmt.Sprintf("a freshly parsed %q returned %s, the long-lived Path for the same text returned %s (round %d of a parse-use-drop loop)",
+						g.texts[k], got, refs[gi][k].want, r)
+				}
+			}
+		}
+		if r%4 == 3 {
+			runtime.GC()
+		}
+	}
+	// The long-lived Paths must still answer as they did.
+	for gi := range refs {
+		for _, rf := range refs[gi] {
+			items, qerr := rf.p.Query(ctx, rf.doc, exec.WithTZ())
+			if got := renderItems(items, true) + errSuffix(qerr); got != rf.want && mismatch == "" {
+				mismatch = fmt.Sprintf("the long-lived Path %q returned %s before a parse-use-drop loop over its sibling texts and %s after it", rf.p.String(), rf.want, got)
+			}
+		}
+	}
+	return fmt.Sprintf("churn: %d rounds", rounds), mismatch
 }
